@@ -524,9 +524,12 @@ where
     /// This differs from the regular iterator as it doesn't take ownership of self and doesn't try
     /// to apply any pending nodes.
     fn table_iter(&self) -> impl Iterator<Item = &TVal> {
-        self.buckets
-            .iter()
-            .flat_map(move |table| table.iter().map(|n| &n.value))
+        self.buckets.iter().flat_map(move |table| {
+            table
+                .iter()
+                .map(|n| &n.value)
+                .chain(table.pending().map(|pending| pending.value()))
+        })
     }
 
     /// Returns an iterator over all the entries in the routing table.
